@@ -361,6 +361,7 @@ def run_e2e_case(case, res, rng=None):
                 sim.apply(dict(ev))
         res.count('e2e_histories')
         res.count('e2e_unit_executions', len(sim.exec.log))
+        res.count('e2e_checkpointing_executions', sim.exec.checkpoints)
         if sim.bad:
             for clause, detail, mech in sim.bad[:1]:
                 bad.append((clause, detail))
